@@ -725,6 +725,8 @@ def _ptf_text(rnd, n_rows):
             '=' * 90, ' FL |          CRUISE           |               CLIMB               |       DESCENT', '=' * 90]
     rows, lines = [], []
     fls = sorted(rnd.sample(range(0, 430, 5), n_rows))
+    if rnd.random() < 0.6:
+        fls[0] = 0          # BADA tables start at flight level 0
     for fl in fls:
         has_cruise = fl >= 30 or rnd.random() < 0.3
         cr = (rnd.randint(200, 480), round(rnd.uniform(20, 90), 2), round(rnd.uniform(20, 90), 2), round(rnd.uniform(20, 90), 1)) if has_cruise else None
